@@ -395,7 +395,40 @@ class Ctx:
                 self.discharged += 1
             self.trusted.append('%s: %s' % (n, 'Closed under the global context' if not b else 'Axioms: ' + ', '.join(b)))
         log('[obligations] %d theorems checked (%s), build %.1fs' % (len(names), props_rel, dt))
+        if self.tier == 'thorough' and os.environ.get('VERIF_NO_COQCHK') != '1':
+            self.coqchk('Verif.' + props_rel[:-2].replace('/', '.'))
         return allok and not bad
+
+    def coqchk(self, module, timeout=1500):
+        """Independent re-check of the compiled property file and everything it
+        depends on (thorough tier); the axiom list it prints goes into the evidence."""
+        cmd = ['coqchk', '-silent', '-o', '-R', '.', 'Verif', module]
+        with flock('coqbuild'):
+            rc, out = sh(cmd, cwd=COQ, timeout=timeout)
+        self.checker_cmds.append('cd coq && ' + ' '.join(cmd))
+        self.obligations += 1
+        tail = out[out.find('CONTEXT SUMMARY'):] if 'CONTEXT SUMMARY' in out else out[-1500:]
+        if rc == 0:
+            self.discharged += 1
+            ax = re.findall(r'(?m)^\s+([A-Za-z0-9_\.]+)\s*$', tail[tail.find('Axioms'):]) if 'Axioms' in tail else []
+            self.trusted.append('coqchk -o %s: ok; axioms of all loaded libraries: %s' % (module, ', '.join(ax) or 'none listed'))
+            log('[coqchk] %s ok' % module)
+        else:
+            self.broken.append('coqchk failed for %s: %s' % (module, out[-600:]))
+            log('[coqchk] FAILED\n' + out[-1500:])
+
+    def selftest(self, name, vtext, timeout=300):
+        """Harness self-test: a case file in which the expected output was
+        deliberately perturbed MUST be reported as a disagreement (non-empty
+        list); guards against a comparison that silently accepts everything."""
+        ok, out = self.coq_eval(name, vtext, timeout=timeout)
+        res = parse_coq_list_of_nat(out) if ok else None
+        self.obligations += 1
+        if res:
+            self.discharged += 1
+            return True
+        self.broken.append('harness self-test %s: perturbed case was not flagged (%s)' % (name, out[-300:]))
+        return False
 
     def gen_obligation(self, name, vtext, timeout=900):
         """Compile a generated file (translator output + the obligations about
